@@ -7,7 +7,7 @@ CFG = {'scale_exponents': [-60, -40, -30, -27, -10, -8],   # the membership orac
                    "GeoModel/RelateSpec.lean", "GeoModel/Valid.lean", "GeoModel/Area.lean",
                    "GeoProofs/Lemmas/C04Wind.lean", "GeoProofs/Lemmas/C04Locate.lean",
                    "GeoProofs/Lemmas/C04XRound.lean", "GeoProofs/Lemmas/C04XMeasure.lean", "GeoProofs/Lemmas/C04XScan.lean",
-                   "GeoProofs/Lemmas/C04XLayer.lean"],
+                   "GeoProofs/Lemmas/C04XLayer.lean", "GeoProofs/Lemmas/C04XGeneric.lean"],
     "rule": "55% pairs (A, B) of Polygon / MultiPolygon operands on one shared 3..8 grid (polyomino polygons with holes incl. holes tangent to "
             "the shell, star polygons with oblique edges, rectangles with holes, corner-touching / side-by-side multipolygons; identical operands, "
             "a second representation of the same point set, empty Polygon / MultiPolygon operands; a quarter with repeated vertices incl. a repeated "
@@ -29,12 +29,11 @@ CFG = {'scale_exponents': [-60, -40, -30, -27, -10, -8],   # the membership orac
         "edge; area tolerance 4·perimeter·D·2^-29 with perimeter and D replaced by their L1 upper bounds; lengths by rational square-root enclosures",
         "engine totality is part of the assumption: i_overlay 2.0.5 was observed (by the C20 check) not to return on inputs above ~32768 segments "
         "(parallel-sort path); the generated operands here stay far below that size",
-        "spec adequacy (S2): for a valid polygon, even-odd parity over all its rings = inside — now PROVED from polyValid "
-        "(evenOdd_eq_inside_valid_partial; GeoProofs/Lemmas/C04XScan.lean, C04XLayer.lean on top of the WIND / SMLX Jordan lemmas) at every point whose "
-        "horizontal line passes through no coordinate of the polygon (levelFree: decidable, finitely many lines excluded); still assumed: the same on "
-        "those finitely many lines, and for MultiPolygon operands that at most one member contains the point (disjoint member interiors — hypothesis "
-        "hda/hdb of booleanOp_pointwise_multi_partial; multiPolyValid's II = F is not yet turned into the pointwise statement for members with holes). "
-        "Both are validated numerically by the membership clause on every run",
+        "spec adequacy (S2): for a valid polygon, even-odd parity over all its rings = inside — now PROVED from polyValid at every point off the rings "
+        "(evenOdd_eq_inside_valid; GeoProofs/Lemmas/C04XScan.lean, C04XLayer.lean, C04XGeneric.lean on top of the WIND / SMLX Jordan lemmas). Still assumed: "
+        "for MultiPolygon operands with two or more members, that at most one member contains the point (disjoint member interiors — hypotheses hda/hdb of "
+        "booleanOp_pointwise_multi_partial; multiPolyValid's II = F is not yet turned into the pointwise statement for members with holes); validated "
+        "numerically by the membership clause on every run",
         "measures: the area / length identities are proved for every finitely additive functional on regions that ignores the tolerance band "
         "(AdditiveOn; weighted finite samples are instances); that Lebesgue area / arc length is such a functional is not formalised (no measure theory "
         "is imported) — the driver compares the exact shoelace areas numerically",
@@ -54,16 +53,16 @@ MANIFEST = {
             "over means the requested operation with Difference = A ∧ ¬B (opToRule_combine), rebuilt polygons have closed rings, counter-clockwise exteriors, "
             "clockwise holes and the engine's region (polygonFromShape_closed / _winding / _inside), hence inside(result) ⇔ op(evenOdd A, evenOdd B) "
             "(booleanOp_evenOdd) and, with the Jordan-type assumption S2 as an explicit hypothesis, ⇔ op(inside A, inside B) (booleanOp_pointwise_partial); "
-            "S2 itself proved from polyValid at every point whose level avoids the operands' coordinates (evenOdd_eq_inside_valid_partial: each simple ring "
-            "winds 0 or by the sign of its area, a hole winds only where its shell winds, two holes never wind together), hence the pointwise statement "
-            "for valid Polygon operands with no topological assumption left (booleanOp_pointwise_polygon_partial) and for MultiPolygon operands given that "
-            "at most one member contains the point (booleanOp_pointwise_multi_partial); "
+            "S2 itself proved from polyValid at every point off the rings (evenOdd_eq_inside_valid: each simple ring winds 0 or by the sign of its area, a hole "
+            "winds only where its shell winds, two holes never wind together; first on levels avoiding the coordinates, then everywhere because the half-open "
+            "crossing rule is stable under a small move upwards), hence the pointwise statement at full strength for valid Polygon operands "
+            "(booleanOp_pointwise_polygon) and for MultiPolygon operands given that at most one member contains the point (booleanOp_pointwise_multi_partial); "
             "the indicator identities behind the three area identities, and the area identities themselves for every finitely additive measure on regions "
             "(area_identities, area_eq_expectedArea: the oracle's expected areas are forced by additivity) and for the results of the four operations under "
             "every measure living off the tolerance band (booleanOp_area_identities); the oracle's signed fan carries exactly the shoelace area "
             "(oracle_fan_area); unary_union's fill-rule choice selects the union of a consistently wound collection "
             "and equals the fold of pairwise unions (unaryUnion_region_partial, foldUnion_region) — WindingValid now derived from polyValid + orientation by "
-            "exact areas (windingValid_of_valid, unaryUnion_region_valid_partial); on EVERY closed-ring collection unary_union computes the Positive/Negative "
+            "exact areas, so the unary_union statement holds at full strength (windingValid_of_valid, unaryUnion_region_valid); on EVERY closed-ring collection unary_union computes the Positive/Negative "
             "region of the summed winding numbers (unaryUnion_fill_region), so in an inconsistently wound collection the members wound against the first ring "
             "are dropped or cut out (unaryUnion_inconsistent_witness; the real code does exactly that: driver tag mixed region=fill-rule covers=less-than-union); "
             "clip conserves length for every measure off the tolerance band (clip_length_conserved); the glue round trip polygon_from_shape ∘ ring_to_shape_path "
@@ -73,6 +72,6 @@ MANIFEST = {
             "exact oracle written in Lean (expected areas from |A|, |B| and the exact |A∩B|, membership at sample points off the input edges, ring direction and "
             "closedness, unary_union vs fold, clip pieces / coverage / length conservation).",
     "note": "Trusted: Lean kernel + audited axioms; the harness/generators (sampling); the engine assumption EngineSpec (validated numerically every run, not proved); "
-            "S2 only on the finitely many horizontal lines through the operands' coordinates and as member disjointness of MultiPolygons (the rest is proved). Hook commit a034e536 (feature verif-hooks: glue functions + raw engine probes). Defect found and repaired: repeated closing vertex "
+            "S2 only as member disjointness of MultiPolygon operands (the rest is proved). Hook commit a034e536 (feature verif-hooks: glue functions + raw engine probes). Defect found and repaired: repeated closing vertex "
             "halves the area (F5, fix e438f046).",
 }
